@@ -57,6 +57,9 @@ func (c *regexpSimplifyChecker) VisitExpr(x ast.Expr) {
 		return
 	}
 
+	if len(call.Args) == 0 {
+		return
+	}
 	switch qualifiedName(call.Fun) {
 	case "regexp.Compile", "regexp.MustCompile":
 		cv := c.ctx.TypesInfo.Types[call.Args[0]].Value
